@@ -213,6 +213,7 @@ func (e *Enc) panicExit(fr *Frame, ex *Exit) {
 
 func (e *Enc) applyContract(fr *Frame, c *Contract, key string, args []Term, argTypes []types.Type, sig *types.Signature, st *State, reach Term, pos string) []Term {
 	env := &CEnv{e: e, vars: map[string]TT{}, cur: st, old: st, pkg: c.Pkg, guard: reach}
+	e.usedContracts[key] = true
 	// parameter types from the callee's signature where available
 	var ptypes []types.Type
 	if fn := e.w.Funcs[key]; fn != nil {
@@ -688,6 +689,8 @@ func (e *Enc) loopWrites(fr *Frame, li *loopInfo) (map[string]bool, bool) {
 								k, _, _ := e.fieldKey(el, i)
 								keys[k] = true
 							}
+						} else if at, ok := el.Underlying().(*types.Array); ok {
+							keys[e.memKey(e.sortOf(at.Elem()))] = true
 						} else {
 							keys[e.cellKey(e.sortOf(el))] = true
 						}
@@ -809,6 +812,8 @@ func (e *Enc) storeKeys(addr ssa.Value, keys map[string]bool) {
 				k, _, _ := e.fieldKey(el, i)
 				keys[k] = true
 			}
+		} else if at, ok := el.Underlying().(*types.Array); ok {
+			keys[e.memKey(e.sortOf(at.Elem()))] = true
 		} else {
 			keys[e.cellKey(e.sortOf(el))] = true
 		}
